@@ -88,6 +88,8 @@ Slack == 40000       \* ~ one tolerance of barycentric error times an edge lengt
 \* frustum is a cone (every plane passes through the origin of clip space), so the
 \* inside part of a triangle, in barycentric terms, does not depend on sc: the relation
 \* below deliberately never mentions it.
+\* e.po: 0 = view_frustum::clip; k > 0 = the public Clip::clip with the six planes in another order.
+\* An intersection of half-spaces does not depend on the order either.
 Tight(t, td, P, Q) ==
   \* both ends on the same constraint boundary: an input edge or a clip plane
   \/ \E i \in 1..3 : Abs(P[i]) <= 4 * TolB /\ Abs(Q[i]) <= 4 * TolB
